@@ -35,7 +35,9 @@ CONSTANTS N,         \* hosts 1..N
           MaxReps,   \* at most this many replicas
           SessionKs, \* working keyspaces of the session to enumerate: subset of {"none", "a", "b"}
           StmtKs,    \* keyspaces the statement names: subset of {"none", "a", "b"}
-          KeyChoices \* subset of BOOLEAN: does the statement carry a routing key
+          KeyChoices,\* subset of BOOLEAN: does the statement carry a routing key
+          ShareAddr  \* subset of BOOLEAN: may several hosts have one IP address (a host is an endpoint = address + port:
+                     \* nodes behind one proxy address, several nodes per machine with peers_v2 ports)
 
 H == 1..N
 Dist == {"LOCAL", "REMOTE", "IGNORED"}
@@ -60,14 +62,18 @@ RepsIn(ks, ra, rb) == IF ks = "a" THEN ra ELSE IF ks = "b" THEN rb ELSE <<>>
 VARIABLES reps, child, up, dist, shuffle, head, tail,
           reps2,     \* replicas of the same key in keyspace "b"
           sks, qks,  \* session's working keyspace / statement's keyspace
-          hasKey     \* the statement has a routing key
-vars == <<reps, child, up, dist, shuffle, head, tail, reps2, sks, qks, hasKey>>
+          hasKey,    \* the statement has a routing key
+          addr       \* host -> IP address (hosts stay distinct: plans are made of hosts, not of addresses)
+vars == <<reps, child, up, dist, shuffle, head, tail, reps2, sks, qks, hasKey, addr>>
 
 Routed == hasKey /\ EffectiveKs(sks, qks) # "none"
 EffReps == IF Routed THEN RepsIn(EffectiveKs(sks, qks), reps, reps2) ELSE <<>>
 
 Init ==
     /\ sks \in SessionKs /\ qks \in StmtKs /\ hasKey \in KeyChoices
+    /\ \E sh \in ShareAddr :
+          addr \in IF sh THEN {f \in [H -> H] : \A h \in H : f[h] <= h /\ (f[h] = h \/ f[f[h]] = f[h])} \ {[h \in H |-> h]}
+                   ELSE {[h \in H |-> h]}
     /\ reps \in DistinctSeqs(H, MaxReps)
     /\ reps2 \in (IF "b" \in SessionKs \cup StmtKs THEN DistinctSeqs(H, MaxReps) ELSE {<<>>})
     /\ up \in [H -> UpVals]
@@ -107,6 +113,8 @@ StatementKeyspaceWins ==
     /\ ~Routed => plan = child
 
 \* vacuity witnesses (expected to be VIOLATED)
+Witness_NonReplicaSharesAddressWithHead ==
+    ~(\E r \in RangeOf(head), h \in RangeOf(tail) : addr[r] = addr[h])
 Witness_StatementOverridesSession ==
     ~(hasKey /\ sks = "a" /\ qks = "b" /\ head # HeadOf(reps, up, dist))
 Witness_SessionKeyspaceUsed == ~(hasKey /\ sks = "b" /\ qks = "none" /\ head # <<>>)
